@@ -3,6 +3,7 @@ use crate::{
     parser::{Label, ParserNode},
     passes::{DiagnosticManager, LintError, LintPass},
 };
+use itertools::Itertools;
 use uuid::Uuid;
 
 /// A lint to ensure warn about instructions that exist in more than one
@@ -25,6 +26,7 @@ impl LintPass for OverlappingFunctionCheck {
                 let labels = node.labels();
                 let labels = labels
                     .iter()
+                    .sorted()
                     .map(|l| Label {
                         name: l.clone(),
                         key: Uuid::new_v4(),
